@@ -576,7 +576,7 @@ def c08_cases(tables, colshuffle_every=5):
         for ln in lines:
             if ln["m"] not in models:
                 models.append(ln["m"])
-        fmts = ["cif"] if any(ln["occ"] < 0 for ln in lines) or not pdb_representable(lines) else ["pdb", "cif"]
+        fmts = (["pdb"] if pdb_representable(lines) else []) + (["cif"] if cif_representable(lines) else [])
         for fmt in fmts:
             n = len(cases)
             colseed = (n + 1) if (fmt == "cif" and n % colshuffle_every == 0) else 0
@@ -753,3 +753,146 @@ def corpus_tables(names, per_file, size, seed):
                 tables.append({"tid": f"corpus-{name}-{w}-{variant}", "layout": "corpus-" + variant, "feats": [],
                                "icn": "?", "ocn": "?", "lines": t})
     return tables
+
+
+def cif_representable(lines):
+    return all(ln["ch"].strip() and ln["rn"].strip() and ln["an"].strip() and ln.get("lch", "x").strip() for ln in lines)
+
+
+# ----------------------------------------------------------------------------- C15 tables (backbones)
+# A nucleotide's atoms relative to its P; x grows along the chain so that consecutive residues
+# never interpenetrate; O3' is the last atom along x and the next P is placed relative to it.
+_NT = {"P": (0, 0, 0), "OP1": (150, 1450, 350), "O5'": (900, -1150, 400), "C4'": (1500, 250, -1250),
+       "O4'": (1350, 1500, 900), "C1'": (2100, -300, 1100), "NB": (2300, -1500, 300), "CB": (2950, -1300, -1000),
+       "O3'": (3000, 1000, -300)}
+LINKS = {"bond1600": (1600, 0, 0), "bond2390": (2390, 0, 0), "bond2399": (1385, 1385, 1385),
+         "gap2401": (1386, 1386, 1386), "gap2410": (2410, 0, 0), "gap2500": (1500, 2000, 0), "gap7000": (7000, 100, -200),
+         "noP": (1600, 0, 0), "noO3": (1600, 0, 0)}
+_PUR = ["A", "G", "DA", "DG"]
+_PYR = ["C", "U", "DC", "DT", "T"]
+
+
+def _check_nt():
+    names = list(_NT)
+    for a in range(len(names)):
+        for b in range(a + 1, len(names)):
+            d2 = sum((p - q) ** 2 for p, q in zip(_NT[names[a]], _NT[names[b]]))
+            if d2 < 1300 ** 2:
+                raise lib.MachineryError(f"nucleotide template atoms too close: {names[a]} {names[b]}")
+    for k, v in LINKS.items():
+        d2 = sum(x * x for x in v)
+        if k.startswith("bond") != (d2 < 2400 ** 2) and not k.startswith("no"):
+            raise lib.MachineryError("link vector does not realise its class: " + k)
+        if d2 == 2400 ** 2:
+            raise lib.MachineryError("link vector on the 2.4 A sphere")
+
+
+_check_nt()
+
+
+def build_backbone(rng, links, *, chains=1, icn="?", ocn="?", absent_occ=None, hetero_tail=True):
+    """Single-model, single-conformer table: len(links)+1 nucleotides per chain, consecutive ones
+    joined by the given link classes; numbers ascend within a chain (with an insertion-code pair)."""
+    lines = []
+    chain_ids = rng.sample(["A", "B", "R", "2"], chains)
+    lnum = 0
+    for c, ch in enumerate(chain_ids):
+        origin = _add(rng.choice(_ORIGINS[:3]), (0, c * 23000, c * 5000))
+        num = rng.choice([-2, 1, 7, 98])
+        ic = ""
+        pos = origin
+        prev_link = None
+        for r in range(len(links) + 1):
+            purine = rng.random() < 0.5
+            rn = rng.choice(_PUR if purine else _PYR) if rng.random() < 0.9 else rng.choice(["PSU", "5MC", "1MA"])
+            lnum += 1
+            res = {"ch": ch, "num": num, "ic": ic, "rn": rn, "het": 1 if rn in ("PSU", "5MC", "1MA") else 0,
+                   "lch": ch + "X" if c else ch, "lnum": lnum, "icn": icn, "ocn": ocn}
+            jitter = (rng.randrange(-200, 201), rng.randrange(-200, 201), rng.randrange(-200, 201))
+            link = links[r] if r < len(links) else None
+            for name, off in _NT.items():
+                if name == "P" and prev_link == "noP":
+                    continue
+                if name == "O3'" and link == "noO3":
+                    continue
+                an = name
+                if name == "NB":
+                    an = "N9" if purine else "N1"
+                elif name == "CB":
+                    an = "C4" if purine else "C2"
+                    off = _add(off, jitter)
+                occ = 100
+                if absent_occ is not None and rng.random() < 0.25:
+                    occ = -1
+                lines.append(_line(1, res, an, _add(pos, off), occ))
+            if link is not None:
+                pos = _add(_add(pos, _NT["O3'"]), LINKS[link])
+            prev_link = link
+            # numbering: mostly +1, sometimes an insertion-code successor or a numbering gap
+            t = rng.random()
+            if t < 0.15 and ic == "":
+                ic = "A"
+            elif t < 0.25:
+                num, ic = num + rng.choice([2, 5]), ""
+            else:
+                num, ic = num + 1, ""
+        if hetero_tail and rng.random() < 0.5:
+            res = {"ch": ch, "num": num + 100, "ic": "", "rn": "HOH", "het": 1, "lch": "W", "lnum": 0, "icn": icn, "ocn": ocn}
+            lines.append(_line(1, res, "O", _add(origin, (-9000, -9000, 4000 + 3000 * c))))
+    if absent_occ is not None and not any(ln["occ"] < 0 for ln in lines):
+        lines[0]["occ"] = -1
+    return lines
+
+
+def c15_tables(count, seed):
+    rng = random.Random(seed * 99991 + 5)
+    kinds = list(LINKS)
+    tables = []
+    for k in range(count):
+        nlinks = rng.choice([1, 2, 3, 4])
+        links = [kinds[(k + j * 3) % len(kinds)] for j in range(nlinks)]
+        cls = k % 10
+        icn, ocn, absent = "?", "?", None
+        if cls == 3:
+            icn = "."
+        elif cls == 6:
+            ocn, absent = ".", True
+        elif cls == 9:
+            ocn, absent = "?", True
+        lines = build_backbone(rng, links, chains=rng.choice([1, 1, 2]), icn=icn, ocn=ocn, absent_occ=absent)
+        tables.append({"tid": f"b{seed}-{k}", "links": links, "icn": icn, "ocn": ocn, "lines": lines})
+    return tables
+
+
+CORPUS_C15 = ["1ehz-assembly-1.cif", "1E7K_1_C.cif", "184D.cif", "1JJP.cif", "1ATO.pdb", "1DFU_1_M-N.cif", "6INQ.cif",
+              "1HMH_1_E.cif", "4WTI_1_T-P.cif"]
+
+
+def c15_corpus_tables(names, size, seed):
+    rng = random.Random(seed * 13 + 2)
+    tables = []
+    for name in names:
+        lines = corpus_lines(name)
+        if not lines:
+            continue
+        first = lines[0]["m"]
+        blocks = [b for b in residue_blocks(lines) if b[0][0] == first]
+        st = rng.randrange(0, max(1, len(blocks) - size))
+        base = [dict(ln, m=1) for ln in window(lines, st, size)]
+        tables.append({"tid": f"corpus-{name}-{st}", "links": [], "icn": "?", "ocn": "?", "lines": base})
+    return tables
+
+
+def c15_cases(tables):
+    cases = []
+    for t in tables:
+        lines = t["lines"]
+        fmts = []
+        if pdb_representable(lines):
+            fmts.append("pdb")
+        if cif_representable(lines):
+            fmts.append("cif")
+        if not fmts:
+            continue
+        cases.append({"id": t["tid"], "kind": "agree", "fmts": fmts, "lines": lines})
+    return cases
